@@ -517,4 +517,132 @@ Section Inv.
       pose proof (countb_nonneg (Z.eqb (Z.of_nat j)) vals).
       apply Z.mod_small. unfold M16 in *. lia.
   Qed.
+  (* ---------------------------------------------------------------- row_init *)
+
+  Lemma clear_TLBR k cl :
+    get_p k (clear_pieces TL BR cl) = match k with TL | BR => piece0 | _ => get_p k cl end /\
+    get_n k (clear_pieces TL BR cl) = match k with TL | BR => 0 | _ => get_n k cl end.
+  Proof. destruct k; split; reflexivity. Qed.
+  Lemma clear_TRBL k cl :
+    get_p k (clear_pieces TR BL cl) = match k with TR | BL => piece0 | _ => get_p k cl end /\
+    get_n k (clear_pieces TR BL cl) = match k with TR | BL => 0 | _ => get_n k cl end.
+  Proof. destruct k; split; reflexivity. Qed.
+
+  Definition is_tlbr (k : pname) : bool := match k with TL | BR => true | _ => false end.
+  Definition is_trbl (k : pname) : bool := match k with TR | BL => true | _ => false end.
+
+  Lemma row_init_fields (s : st) (row : Z) : length (s_cols s) = Z.to_nat (e_SL e) ->
+    let o1 := tl_br e (s_row s) (- e_R e) in let o2 := tr_bl e (s_row s) (e_cols e + e_R e - 1) in
+    let s' := row_init e s row in
+    length (s_cols s') = Z.to_nat (e_SL e) /\ s_row s' = row /\ s_acc s' = piece0 /\ s_accn s' = 0 /\
+    s_last s' = repeat (- e_R e - 1) 16 /\
+    forall o k, 0 <= o < e_SL e ->
+      (get_p k (slot s' o) = if ((o =? o1) && is_tlbr k) || ((o =? o2) && is_trbl k) then piece0 else get_p k (slot s o)) /\
+      (get_n k (slot s' o) = if ((o =? o1) && is_tlbr k) || ((o =? o2) && is_trbl k) then 0 else get_n k (slot s o)).
+  Proof.
+    intros HL. cbv zeta. unfold row_init. rewrite Hsw.
+    set (o1 := tl_br e (s_row s) (- e_R e)). set (o2 := tr_bl e (s_row s) (e_cols e + e_R e - 1)).
+    destruct (ix_nonneg (s_row s) (- e_R e)) as (B1 & _ & _). destruct (ix_nonneg (s_row s) (e_cols e + e_R e - 1)) as (_ & B2 & _).
+    fold o1 in B1. fold o2 in B2.
+    cbn [s_cols s_row s_acc s_accn s_last]. rewrite !updz_length.
+    split; [exact HL|]. split; [reflexivity|]. split; [reflexivity|]. split; [reflexivity|]. split; [reflexivity|].
+    intros o k Ho. unfold slot. cbn [s_cols].
+    rewrite getz_updz by (try rewrite updz_length; lia).
+    rewrite (getz_updz _ _ (s_cols s) o1 o) by lia.
+    rewrite (getz_updz _ _ (s_cols s) o1 o2) by lia.
+    destruct (o =? o2) eqn:E2; destruct (o =? o1) eqn:E1; cbn [andb orb].
+    - assert (o2 = o1) by lia. replace (o2 =? o1) with true by lia.
+      destruct (clear_TRBL k (clear_pieces TL BR (getz column0 (s_cols s) o1))) as [X1 X2].
+      destruct (clear_TLBR k (getz column0 (s_cols s) o1)) as [Y1 Y2].
+      rewrite X1, X2. assert (o = o1) by lia. subst o. destruct k; cbn [is_tlbr is_trbl orb]; rewrite ?Y1, ?Y2; split; reflexivity.
+    - replace (o2 =? o1) with false by lia.
+      destruct (clear_TRBL k (getz column0 (s_cols s) o2)) as [X1 X2]. rewrite X1, X2.
+      assert (o = o2) by lia. subst o. destruct k; cbn [is_tlbr is_trbl orb andb]; split; reflexivity.
+    - destruct (clear_TLBR k (getz column0 (s_cols s) o1)) as [Y1 Y2]. rewrite Y1, Y2.
+      assert (o = o1) by lia. subst o. destruct k; cbn [is_tlbr is_trbl orb andb]; split; reflexivity.
+    - split; reflexivity.
+  Qed.
+
+  Lemma nth_repeat_lt (a d : Z) n : forall k, (k < n)%nat -> nth k (repeat a n) d = a.
+  Proof. induction n as [|n IH]; intros k Hk; [lia|]. destruct k; cbn [repeat nth]; [reflexivity|apply IH; lia]. Qed.
+
+  Lemma acc_fine_fresh (s' : st) (row : Z) :
+    s_acc s' = piece0 -> s_accn s' = 0 -> s_last s' = repeat (- e_R e - 1) 16 ->
+    AccInv s' row (- e_R e - 1) /\ FineInv s' row (- e_R e - 1).
+  Proof.
+    intros E1 E2 E3. pose proof (fun q => hist_col_start e HR row q) as Z0. unfold MedianSlide.R in Z0.
+    split.
+    - unfold AccInv. rewrite E1, E2. unfold piece0. cbn [coarse]. split.
+      + apply BinsAre_zero. intros i. apply Z0.
+      + unfold hN. rewrite Z0. reflexivity.
+    - unfold FineInv, BlockIs. rewrite E1, E3. unfold piece0. cbn [fine]. split; [apply repeat_length|]. split; [apply repeat_length|].
+      intros f Hf. unfold getz. rewrite nth_repeat_lt by lia. split; [lia|]. intros v Hv. rewrite nth_repeat.
+      unfold hF. rewrite Z0. reflexivity.
+  Qed.
+
+  Lemma mod_shift a : (a + e_SL e) mod e_SL e = a mod e_SL e.
+  Proof. replace (a + e_SL e) with (a + 1 * e_SL e) by lia. apply Z_mod_plus_full. Qed.
+
+  (* from the end of row-1 to the beginning of row *)
+  Lemma row_init_inv (s : st) (row : Z) :
+    s_row s = row - 1 -> Slots s (row - 1) (e_cols e + e_R e - 1) ->
+    let s' := row_init e s row in
+    Slots s' row (- e_R e - 1) /\ AccInv s' row (- e_R e - 1) /\ FineInv s' row (- e_R e - 1) /\ s_row s' = row.
+  Proof.
+    intros Hrow (HL & HTLBR & HTRBL & HEDs). cbv zeta.
+    destruct (row_init_fields s row HL) as (L' & R' & A' & N' & T' & Fl). rewrite Hrow in Fl.
+    set (s' := row_init e s row) in *.
+    set (o1 := tl_br e (row - 1) (- e_R e)) in *. set (o2 := tr_bl e (row - 1) (e_cols e + e_R e - 1)) in *.
+    destruct (acc_fine_fresh s' row A' N' T') as [AI FI].
+    split; [|split; [exact AI|split; [exact FI|exact R']]].
+    split; [exact L'|]. split; [|split].
+    - intros c' Hc'. destruct (index_follow e c' row) as (E & _ & _).
+      destruct (ix_nonneg row c') as (B & _ & _).
+      destruct (Fl (tl_br e row c') TL B) as [P1 N1]. destruct (Fl (tl_br e row c') BR B) as [P2 N2].
+      cbn [is_tlbr is_trbl andb orb] in P1, N1, P2, N2. rewrite !andb_false_r, !orb_false_r, !andb_true_r in *.
+      unfold CTL, CBR. destruct (Z.leb_spec c' (- e_R e - 1)); [lia|].
+      destruct (Z.eq_dec c' (e_cols e + e_R e)) as [->|Hne].
+      + assert (Eo : tl_br e row (e_cols e + e_R e) = o1).
+        { unfold o1, tl_br. rewrite <- (mod_shift (- e_R e + 3 * e_R e + (row - 1))). f_equal. lia. }
+        rewrite Eo in *. rewrite Z.eqb_refl in *.
+        split; apply SlotIs_zero; try assumption; intros q; [apply TL_right_empty|apply BR_right_empty]; lia.
+      + assert (Eo : (tl_br e row c' =? o1) = false).
+        { apply Z.eqb_neq. rewrite E. unfold o1. intro X. apply tl_br_inj in X; lia. }
+        rewrite Eo in *. rewrite E in *.
+        destruct (HTLBR (c' + 1) ltac:(lia)) as [Q1 Q2]. unfold CTL, CBR in Q1, Q2.
+        destruct (Z.leb_spec (c' + 1) (e_cols e + e_R e - 1)).
+        * split; eapply SlotIs_frame; eassumption.
+        * assert (c' + 1 = e_cols e + e_R e) by lia.
+          split; (eapply SlotIs_frame; [eassumption|eassumption|]).
+          -- eapply SlotIs_ext; [|exact Q1]. intros q. rewrite !TL_right_empty by lia. reflexivity.
+          -- eapply SlotIs_ext; [|exact Q2]. intros q. rewrite !BR_right_empty by lia. reflexivity.
+    - intros c' Hc'. destruct (index_follow e c' row) as (_ & E & _).
+      destruct (ix_nonneg row c') as (_ & B & _).
+      destruct (Fl (tr_bl e row c') TR B) as [P1 N1]. destruct (Fl (tr_bl e row c') BL B) as [P2 N2].
+      cbn [is_tlbr is_trbl andb orb] in P1, N1, P2, N2. rewrite !andb_false_r, !andb_true_r in *. cbn [orb] in *.
+      unfold CTR, CBL.
+      destruct (Z.eq_dec c' (- e_R e - 1)) as [->|Hne].
+      + destruct (Z.leb_spec (- e_R e - 1) (- e_R e - 1)); [|lia].
+        assert (Eo : tr_bl e row (- e_R e - 1) = o2).
+        { unfold o2, tr_bl. rewrite <- (mod_shift (- e_R e - 1 + 3 * e_R e + e_rows e - row)). f_equal. lia. }
+        rewrite Eo in *. rewrite Z.eqb_refl in *.
+        split; apply SlotIs_zero; try assumption; intros q; [apply TR_left_empty|apply BL_left_empty]; lia.
+      + destruct (Z.leb_spec c' (- e_R e - 1)); [lia|].
+        assert (Eo : (tr_bl e row c' =? o2) = false).
+        { apply Z.eqb_neq. rewrite E. unfold o2. intro X. apply tr_bl_inj in X; lia. }
+        rewrite Eo in *. rewrite E in *.
+        destruct (HTRBL (c' - 1) ltac:(lia)) as [Q1 Q2]. unfold CTR, CBL in Q1, Q2.
+        destruct (Z.leb_spec (c' - 1) (e_cols e + e_R e - 1)); [|lia].
+        split; eapply SlotIs_frame; eassumption.
+    - intros c' Hc'. destruct (ix_nonneg row c') as (_ & _ & B).
+      destruct (Fl (lead_ix e c') ED B) as [P1 N1].
+      cbn [is_tlbr is_trbl andb orb] in P1, N1. rewrite !andb_false_r in *. cbn [orb] in *.
+      pose proof (HEDs c' Hc') as Q. unfold CED in *.
+      destruct (Z.leb_spec c' (e_cols e + e_R e - 1)); [|lia].
+      destruct (Z.leb_spec c' (- e_R e - 1)).
+      + assert (c' = - e_R e - 1) by lia. subst c'.
+        eapply SlotIs_frame; [eassumption|eassumption|].
+        eapply SlotIs_ext; [|exact Q]. intros q. rewrite !ED_left_empty by lia. reflexivity.
+      + eapply SlotIs_frame; eassumption.
+  Qed.
 End Inv.
